@@ -20,6 +20,7 @@ type HealthReport struct {
 	Err         string   // C23: structural problem
 	ReencodeErr string   // C44: a slab does not re-encode to its stored bytes
 	UUIDs       []uint64 // all resource uuids found in storage (with duplicates)
+	UUIDOwner   map[uint64]uint64 // uuid -> number of the account whose storage holds it
 	Paths       map[string][]string // "addr/domain" -> sorted keys
 	Slabs       int
 	Values      int
@@ -34,6 +35,8 @@ func oracleHost(w *World) *Host {
 
 func CheckHealth(w *World) (rep HealthReport) {
 	rep.Paths = map[string][]string{}
+	rep.UUIDOwner = map[uint64]uint64{}
+	var curOwner uint64
 	defer func() {
 		if r := recover(); r != nil {
 			rep.Err = fmt.Sprintf("panic while walking storage: %v", r)
@@ -93,6 +96,7 @@ func CheckHealth(w *World) (rep HealthReport) {
 		if c, ok := v.(*interpreter.CompositeValue); ok && c.Kind == common.CompositeKindResource {
 			if u := c.ResourceUUID(inter); u != nil {
 				rep.UUIDs = append(rep.UUIDs, uint64(*u))
+				rep.UUIDOwner[uint64(*u)] = curOwner
 			} else {
 				rep.Err = "resource without uuid: " + string(c.TypeID())
 			}
@@ -102,6 +106,10 @@ func CheckHealth(w *World) (rep HealthReport) {
 	for _, o := range os {
 		var a common.Address
 		copy(a[:], o)
+		curOwner = 0
+		for _, b := range a {
+			curOwner = curOwner<<8 | uint64(b)
+		}
 		for _, d := range common.AllStorageDomains {
 			m := storage.GetDomainStorageMap(inter, a, d, false)
 			if m == nil {
